@@ -51,7 +51,8 @@ func applyC19(in, out string) error {
 			}
 			b, err := json.Marshal(sw)
 			if err != nil {
-				res = append(res, kv{"rt_err", err.Error()})
+				// the document decoded: that its value does not encode is not "the document does not decode"
+				res = append(res, kv{"encode_err", err.Error()})
 				return
 			}
 			res = append(res, kv{"roundtrip", json.RawMessage(b)})
@@ -64,7 +65,7 @@ func applyC19(in, out string) error {
 			}
 			b2, err := json.Marshal(sw2)
 			if err != nil {
-				res = append(res, kv{"ex_err", err.Error()})
+				res = append(res, kv{"encode_err", "after a successful expansion: " + err.Error()})
 				return
 			}
 			res = append(res, kv{"expanded", json.RawMessage(b2)})
